@@ -42,9 +42,11 @@ fn fwd(op: &Op, _ctx: &dyn Context, operands: &mut dyn CoordinateSet) -> usize {
             let (lon, lat) = operands.xy(i);
             let (sin_lon, cos_lon) = (lon - lon_0).sin_cos();
 
-            let q = ancillary::qs(lat.sin(), e);
-            // At the pole of the aspect qp ± q is zero up to roundoff, which may come out negative
-            let d = qp + sign * q;
+            // qs is odd: evaluated on the hemisphere of the aspect, q equals qp exactly at the pole,
+            // so that the pole maps exactly to the false origin in the south polar aspect as well.
+            // Next to the pole qp - q is zero up to roundoff, which may come out negative
+            let q = ancillary::qs(-sign * lat.sin(), e);
+            let d = qp - q;
             let rho = a * (if d < 0.0 { 0.0 } else { d }).sqrt();
 
             let easting = x_0 + rho * sin_lon;
